@@ -22,14 +22,20 @@ import (
 // refModel is the small executable reference: path sums over the ORIGINAL book
 // in exact rational arithmetic, and the longest chain of ingredient references.
 type refModel struct {
-	book   map[string][]Item
-	order  []string
-	memo   map[string]map[string]*big.Rat
-	absMax *big.Rat // largest |partial product| met, to decide whether float64 arithmetic was exact
+	book  map[string][]Item
+	order []string
+	memo  map[string]map[string]*big.Rat
+	// absMemo: the same expansion with every coefficient replaced by its absolute value, i.e. per recipe and
+	// element the sum of the absolute values of all fully expanded terms. Whatever the order and grouping of
+	// a float64 evaluation, no intermediate value exceeds it, so the rounding error of the result is a small
+	// multiple of 2^-53 times this - NOT times the result or the exact partial sums, which cancellation can
+	// make many orders of magnitude smaller than the terms they were computed from
+	absMemo map[string]map[string]*big.Rat
+	absMax  *big.Rat // largest value met in either expansion: the scale of the book
 }
 
 func newRefModel(book []Block) *refModel {
-	m := &refModel{book: map[string][]Item{}, memo: map[string]map[string]*big.Rat{}, absMax: new(big.Rat)}
+	m := &refModel{book: map[string][]Item{}, memo: map[string]map[string]*big.Rat{}, absMemo: map[string]map[string]*big.Rat{}, absMax: new(big.Rat)}
 	for _, b := range book {
 		if _, dup := m.book[b.Head]; !dup {
 			m.order = append(m.order, b.Head)
@@ -128,6 +134,36 @@ func (m *refModel) resolved(name string) map[string]*big.Rat {
 		}
 	}
 	m.memo[name] = out
+	return out
+}
+
+// resolvedAbs is resolved with absolute values throughout (see absMemo).
+func (m *refModel) resolvedAbs(name string) map[string]*big.Rat {
+	if r, ok := m.absMemo[name]; ok {
+		return r
+	}
+	out := map[string]*big.Rat{}
+	add := func(el string, p *big.Rat) {
+		if cur, ok := out[el]; ok {
+			cur.Add(cur, p)
+		} else {
+			out[el] = new(big.Rat).Set(p)
+		}
+	}
+	m.absMemo[name] = out // (only used on acyclic books; the entry guards against a mistake here looping for ever)
+	for _, it := range m.book[name] {
+		q := new(big.Rat).Abs(ratOf(it.Qty))
+		if _, isRecipe := m.book[it.Name]; isRecipe {
+			for el, v := range m.resolvedAbs(it.Name) {
+				add(el, new(big.Rat).Mul(q, v))
+			}
+		} else {
+			add(it.Name, q)
+		}
+	}
+	for _, v := range out {
+		m.note(v)
+	}
 	return out
 }
 
@@ -381,7 +417,10 @@ func closeEnough(got float64, want *big.Rat, exact bool, scale *big.Rat) (bool, 
 		}
 		return false, fmt.Sprintf("got %v want exactly %v", got, want.RatString())
 	}
-	sc, _ := scale.Float64()
+	sc := 0.0
+	if scale != nil {
+		sc, _ = scale.Float64()
+	}
 	tol := 1e-9*sc + 1e-12
 	if math.Abs(got-wf) <= tol {
 		return true, ""
@@ -411,7 +450,7 @@ func (c *CaseC01) compareResolved(db shared.DBNodeMap, m *refModel, exact bool) 
 			if !ok {
 				return fmt.Sprintf("recipe %q: unexpected element %q = %v", name, e.Name, e.Value)
 			}
-			if ok, why := closeEnough(e.Value, w, exact, m.absMax); !ok {
+			if ok, why := closeEnough(e.Value, w, exact, m.resolvedAbs(name)[e.Name]); !ok {
 				return fmt.Sprintf("recipe %q element %q: %s", name, e.Name, why)
 			}
 			seen[e.Name] = true
@@ -472,6 +511,7 @@ func (c *CaseC01) evalSeq(ob *Obs) []Finding {
 		}
 		for _, n := range m.order {
 			m.resolved(n)
+			m.resolvedAbs(n)
 		}
 		ob.nontrivial(fmt.Sprintf("seq/%d/%s", i, hashOf(st)))
 		why := ""
@@ -501,6 +541,7 @@ func (c *CaseC01) Eval(ob *Obs) []Finding {
 	}
 	for _, n := range m.order {
 		m.resolved(n)
+		m.resolvedAbs(n)
 	}
 	// float64 arithmetic on dyadic rationals below 2^50 is exact
 	exact := c.Exact && m.absMax.Cmp(new(big.Rat).SetInt64(1<<50)) < 0
